@@ -49,6 +49,8 @@ C05 — property theorems about the signer model (`Model/Sign.lean`).
   induction on the key list, every 1 ≤ m ≤ n ≤ 20, the four wrappers); `C05_solve_constraints_*`: the solver loop on them =
   `solveBase`; `C05_solve_machinery_multisig/_p2pkh/_p2pk/_p2wpkh/_p2sh_p2wpkh`: `Solve.solve` (the machinery) returns what the
   result-level model returns; `C05_solve_machinery_*_end_to_end`: the end-to-end theorems started from the machinery;
+  `C05_solve_machinery_eq_result_model_p2pkh/_p2wpkh/_p2sh_p2wpkh` (full) and `…_partial` (any base script under the four wrappers, given
+  that `Sign.classify` recognises it): `Solve.solve` = `Sign.solve`;
   `C05_solve_machinery_frame`, `C05_solve_machinery_missing_key`: unsolvable ⇒ untouched; `C05_solve_loop_fuel`,
   `C05_constraints_fetch_fuel`: the two fuels suffice.
 -/
@@ -2045,6 +2047,143 @@ theorem C05_solve_machinery_p2pkh_end_to_end (coin : Coin) (tx : Tx) (us : List 
   rw [hsolve]
   simp only
   rw [hpush]
+
+/-! ### the machinery and the result-level `Sign.solve` -/
+
+theorem sign_scriptHash_p2sh (h : Bytes) (hlen : h.length = 20) : scriptHashFromScript (p2shScript h) = some h := by
+  have hl : (p2shScript h).length = 23 := by simp [p2shScript, directPush, hlen]
+  have hlast : (p2shScript h).getLast? = some 0x87 := by
+    rw [show p2shScript h = (0xa9 :: directPush h) ++ [0x87] from by simp [p2shScript], List.getLast?_concat]
+  have h1 : (p2shScript h)[1]? = some 0x14 := by simp [p2shScript, directPush, hlen]
+  have h0 : (p2shScript h).head? = some 0xa9 := by simp [p2shScript]
+  simp only [scriptHashFromScript, hl, hlast, h1, h0, and_self, if_true]
+  simp [p2shScript, directPush, slice, hlen]
+
+theorem sign_scriptHash_none (b : UInt8) (tl : Bytes) (hb : b ≠ 0xa9) : scriptHashFromScript (b :: tl) = none := by
+  simp [scriptHashFromScript, hb]
+
+theorem sign_isWitnessV0_false (b : UInt8) (tl : Bytes) (hb : b ≠ 0) : isWitnessV0 (b :: tl) = false := by
+  unfold isWitnessV0
+  cases tl with
+  | nil => simp
+  | cons c t => simp [hb]
+
+theorem sign_isWitnessV0_true (prog : Bytes) (h2 : 2 ≤ prog.length) (h40 : prog.length ≤ 40) :
+    isWitnessV0 (witnessV0Script prog) = true := by
+  have hb : (UInt8.ofNat prog.length).toNat = prog.length := by rw [UInt8.toNat_ofNat']; omega
+  have hl : (witnessV0Script prog).length = prog.length + 2 := by simp [witnessV0Script, directPush]
+  unfold isWitnessV0
+  rw [hl]
+  simp [witnessV0Script, directPush, hb]
+  omega
+
+/-- the machinery's answer in the vocabulary of `Sign.solve`: unsolved witness items dropped -/
+def dropNone (r : Bytes × Option (List (Option Bytes))) : Bytes × Option (List Bytes) := (r.1, r.2.map (fun l => l.filterMap id))
+
+/-- **The machinery agrees with the result-level model `Sign.solve`** on a base script under any of the four wrappers
+(`_partial`: `hcl` — that `Sign.classify`, the result-level model's own template recogniser, classifies the base script as the
+template — is a hypothesis here; the machinery itself does not classify anything). -/
+theorem C05_solve_machinery_eq_result_model_partial (w : Wrap) (a : SolveArgs) (ctx : VM.TxCtx) (ms : Bytes) (base : Base)
+    (hb : BaseOK a ms base) (script : Bytes) (witness : List Bytes) (hk : LookupKnows a.p2sh w ms) (hsz : WrapSizes w ms)
+    (hsh : scriptHash ms = none) (hv : VM.witnessProgramVersion ms = none)
+    (hhead : ∃ b tl, ms = b :: tl ∧ b ≠ 0xa9 ∧ b ≠ 0) (hcl : classify ms = some base) :
+    (Solve.solve a ctx (w.spk ms) script witness).map dropNone = Sign.solve a (w.spk ms) script witness := by
+  obtain ⟨b, tl, hms, hb9, hb0⟩ := hhead
+  have hsn : scriptHashFromScript ms = none := by rw [hms]; exact sign_scriptHash_none b tl hb9
+  have hw0 : isWitnessV0 ms = false := by rw [hms]; exact sign_isWitnessV0_false b tl hb0
+  rw [solve_wrap w a ctx ms base hb script witness hk hsz hsh hv]
+  unfold Sign.solve
+  cases existingScript script witness with
+  | error e => rfl
+  | ok existing =>
+    simp only []
+    cases w with
+    | bare =>
+      simp only [Wrap.spk, Wrap.witness, wrapPushes, hsn, hw0, hcl, Bool.false_eq_true, if_false]
+      cases solveBase a.C a.lookup (a.sighash false ms) existing a.ht a.placeholder base with
+      | error e => rfl
+      | ok items => simp only []; cases pushAll items <;> rfl
+    | p2sh =>
+      have hkk : a.p2sh (Hash.hash160 ms) = some ms := hk
+      simp only [Wrap.spk, Wrap.witness, wrapPushes, sign_scriptHash_p2sh _ (hsz.h160 rfl).1, hkk, hw0, hcl, Bool.false_eq_true,
+        if_false]
+      cases solveBase a.C a.lookup (a.sighash false ms) existing a.ht a.placeholder base with
+      | error e => rfl
+      | ok items => simp only []; cases pushAll (items ++ [some ms]) <;> rfl
+    | p2wsh =>
+      have hkk : a.p2sh (Hash.sha256 ms) = some ms := hk
+      have h32 := hsz.sha rfl
+      have hs0 : scriptHashFromScript (witnessV0Script (Hash.sha256 ms)) = none := sign_scriptHash_none 0 _ (by decide)
+      simp only [Wrap.spk, Wrap.witness, wrapPushes, hs0, sign_isWitnessV0_true _ (show 2 ≤ (Hash.sha256 ms).length by omega) (by omega),
+        if_true, solveWitness, witnessV0_drop2, h32, hkk, hcl]
+      cases solveBase a.C a.lookup (a.sighash true ms) existing a.ht a.placeholder base with
+      | error e => rfl
+      | ok items => simp [pushAll, Script.compilePushDataList, dropNone, Except.map]
+    | p2shP2wsh =>
+      have hk1 := hk.1
+      have hk2 := hk.2
+      have h32 := hsz.sha rfl
+      simp only [Wrap.spk, Wrap.witness, wrapPushes, sign_scriptHash_p2sh _ (hsz.h160w rfl), hk1,
+        sign_isWitnessV0_true _ (show 2 ≤ (Hash.sha256 ms).length by omega) (by omega), if_true, solveWitness,
+        witnessV0_drop2, h32, hk2, hcl]
+      cases solveBase a.C a.lookup (a.sighash true ms) existing a.ht a.placeholder base with
+      | error e => rfl
+      | ok items =>
+        simp only []
+        cases pushAll [some (witnessV0Script (Hash.sha256 ms))] <;> simp [dropNone, Except.map]
+
+/-- `hcl` of `C05_solve_machinery_eq_result_model_partial` is satisfiable (evaluation, a test): a 2-of-3 script, keys of 33 and 65 bytes -/
+example : classify (multisigScriptN 2 [List.replicate 33 2, List.replicate 65 4, List.replicate 33 3]) =
+    some (.multisig 2 [List.replicate 33 2, List.replicate 65 4, List.replicate 33 3]) := by decide +kernel
+
+theorem classify_p2pkh (h : Bytes) (hlen : h.length = 20) : classify (p2pkhScript h) = some (.p2pkh h) := by
+  match h, hlen with
+  | [h0, h1, h2, h3, h4, h5, h6, h7, h8, h9, h10, h11, h12, h13, h14, h15, h16, h17, h18, h19], _ => rfl
+
+/-- **P2PKH: the machinery agrees with `Sign.solve`** (full: the result-level model recognises the script by pattern) -/
+theorem C05_solve_machinery_eq_result_model_p2pkh (a : SolveArgs) (ctx : VM.TxCtx) (h ph : Bytes) (script : Bytes)
+    (witness : List Bytes) (hph : a.placeholder = some ph) (hlen : h.length = 20) :
+    (Solve.solve a ctx (p2pkhScript h) script witness).map dropNone = Sign.solve a (p2pkhScript h) script witness :=
+  C05_solve_machinery_eq_result_model_partial .bare a ctx _ _ (baseOK_p2pkh a ph hph h hlen) script witness trivial
+    ⟨(fun h => by cases h), (fun h => by simp [Wrap.witness] at h), (fun h => by cases h)⟩ (scriptHash_p2pkh h) (version_p2pkh h)
+    ⟨0x76, [0xa9, 0x14] ++ h ++ [0x88, 0xac], by simp [p2pkhScript], by decide, by decide⟩ (classify_p2pkh h hlen)
+
+/-- **P2WPKH and P2SH-P2WPKH: the machinery agrees with `Sign.solve`** -/
+theorem C05_solve_machinery_eq_result_model_p2wpkh (a : SolveArgs) (ctx : VM.TxCtx) (prog ph : Bytes) (script : Bytes)
+    (witness : List Bytes) (hph : a.placeholder = some ph) (hlen : prog.length = 20) :
+    (Solve.solve a ctx (witnessV0Script prog) script witness).map dropNone = Sign.solve a (witnessV0Script prog) script witness := by
+  rw [C05_solve_machinery_p2wpkh a ctx prog ph script witness hph hlen]
+  unfold Sign.solve
+  have hs0 : scriptHashFromScript (witnessV0Script prog) = none := sign_scriptHash_none 0 _ (by decide)
+  cases existingScript script witness with
+  | error e => rfl
+  | ok existing =>
+    simp only [hs0, sign_isWitnessV0_true prog (by omega) (by omega), if_true, solveWitness, witnessV0_drop2, hlen]
+    simp only [show (20 : Nat) = 32 ↔ False from by decide, if_false]
+    rw [show [0x76, 0xa9, 0x14] ++ prog ++ [0x88, 0xac] = p2pkhScript prog from rfl]
+    cases solveBase a.C a.lookup (a.sighash true (p2pkhScript prog)) existing a.ht a.placeholder (.p2pkh prog) with
+    | error e => rfl
+    | ok items => simp [dropNone, Except.map]
+
+theorem C05_solve_machinery_eq_result_model_p2sh_p2wpkh (a : SolveArgs) (ctx : VM.TxCtx) (h prog ph : Bytes) (script : Bytes)
+    (witness : List Bytes) (hph : a.placeholder = some ph) (hlen : h.length = 20) (hplen : prog.length = 20)
+    (hl : a.p2sh h = some (witnessV0Script prog)) :
+    (Solve.solve a ctx (p2shScript h) script witness).map dropNone = Sign.solve a (p2shScript h) script witness := by
+  rw [C05_solve_machinery_p2sh_p2wpkh a ctx h prog ph script witness hph hlen hplen hl]
+  unfold Sign.solve
+  cases existingScript script witness with
+  | error e => rfl
+  | ok existing =>
+    simp only [sign_scriptHash_p2sh h hlen, hl, sign_isWitnessV0_true prog (by omega) (by omega), if_true, solveWitness,
+      witnessV0_drop2, hplen]
+    simp only [show (20 : Nat) = 32 ↔ False from by decide, if_false]
+    rw [show [0x76, 0xa9, 0x14] ++ prog ++ [0x88, 0xac] = p2pkhScript prog from rfl]
+    cases solveBase a.C a.lookup (a.sighash true (p2pkhScript prog)) existing a.ht a.placeholder (.p2pkh prog) with
+    | error e => rfl
+    | ok items =>
+      simp only []
+      cases pushAll [some (witnessV0Script prog)] <;> simp [dropNone, Except.map]
+
 
 /-- **The solver loop needs no more than `len(solutions) + 1` rounds** (Python's `while progress and None in …` has no syntactic
 bound): a round that makes progress gives a solved target to a solution that had none, and solved atoms stay solved — so
